@@ -103,6 +103,11 @@ CHECKS = {
         "when the sender is a member holding the permission the handler names), C11_publish_guard, C11_token_delegation / C11_token_reach_* (a minted or edited token "
         "never carries more than its issuer holds, and only tokens of the issuer's own group are reached), C11_nonmember_refused (a connection that is in no group gets "
         "nothing but errors), revocation on an aliasing heap model of Go slices (C11_revocation_*: a revoked permission is gone from the member and from nobody else); "
+        "WORLD level (C11World, by induction over every schedule of ANY client messages, action-loop iterations and drops from the initial worlds): C11_world_nonmember_holds_none "
+        "(a connection whose group field is nil holds no permission and is in no member list), C11_world_nonmember_refused, C11_world_perms_unshared (no two owners share a "
+        "permission array, so in-place edits reach nobody else), C11_world_perms_frame/_stable/_join_grants (permissions change only to [], at the connection's own join to what "
+        "getPermission grants, or when its own action loop handles a change), C11_world_change_applied, C11_world_revocation_closes_streams; the full revocation statement was FALSE "
+        "(C11_world_revocation_false_duplicate: a list holding a permission twice) — found by the proof, replayed on the real code and repaired (fix 391656f); "
         "the pre-fix behaviours (ghost member after a redirect join, edittoken across groups, permission list shared with the stored token) are kept as proved "
         "counterexamples about the pre-fix definitions; the model is tied to the real handler by a differential run of generated multi-client sessions against the real "
         "webClient objects in-process, with an independent trace oracle that recomputes every member's permissions from the group description; WHIP clause: theorems over a "
@@ -111,8 +116,8 @@ CHECKS = {
         "(C11_whip_history: every session object was created by a request whose credentials granted 'present' at that moment and still carries its bearer token), tied to the real "
         "handlers in-process (httptest, real pion offers, real token store) with an independent oracle",
    note=TB + "The websocket transport, JSON decoding and pion are replaced by in-process message injection (shim); group descriptions are generated from a fixed family; the "
-        "guard theorem is about the model's handlers, tied by the differential run rather than by a regenerated guard table; the world-level statement that a non-member "
-        "holds no permission in every reachable world is checked by the oracle on every step, not proved in general. WHIP: ids/obfuscation idealised (fresh counter, bijection); "
+        "guard theorem is about the model's handlers, tied by the differential run rather than by a regenerated guard table; the world invariants assume the repairs "
+        "P10/P18/P19/tokClone (in currentFixes; each has a proved counterexample run without it). WHIP: ids/obfuscation idealised (fresh counter, bijection); "
         "stateful tokens only; request body abstracted to what the handlers and pion make of it (validated by the correspondence); sequential requests only; a session created "
         "without a bearer token is not protected by one (stated: Ex.anonymous_session_is_unprotected).",
    technique="Lean 4 proof + model/implementation differential check + independent trace oracle",
